@@ -178,7 +178,8 @@ static void dump_tables(const char *tag)
 
 	pfx_table_for_each_ipv4_record(&pfxt, pfx_cb, &l);
 	pfx_table_for_each_ipv6_record(&pfxt, pfx_cb, &l);
-	qsort(l.v, l.n, sizeof(char *), cmpstr);
+	if (l.n)
+		qsort(l.v, l.n, sizeof(char *), cmpstr);
 	len = (size_t)snprintf(line, cap, "%s pfx", tag);
 	for (size_t i = 0; i < l.n; i++) {
 		size_t need = len + strlen(l.v[i]) + 2;
@@ -211,7 +212,8 @@ static void dump_tables(const char *tag)
 		sl_add(&k, b);
 	}
 	pthread_rwlock_unlock(&spkit.lock);
-	qsort(k.v, k.n, sizeof(char *), cmpstr);
+	if (k.n)
+		qsort(k.v, k.n, sizeof(char *), cmpstr);
 	len = (size_t)snprintf(line, cap, "%s keys", tag);
 	for (size_t i = 0; i < k.n; i++) {
 		size_t need = len + strlen(k.v[i]) + 2;
